@@ -128,6 +128,7 @@ Emit == (c.class # "none" /\ Mode # "oracle") =>
               r == ParseOf(c.kind, s)
               one == r.ok => (Respell(c.kind, r) = s)
           IN one /\ PrintT("CASE " \o ToJson([class |-> (IF c.class = "plugin" THEN "plugin_" \o c.v ELSE c.class), kind |-> c.kind, input |-> s, ok |-> r.ok, key |-> r.key, name |-> r.name,
+                                             payload |-> (IF c.class = "plugin" THEN c.b ELSE 0 - 1),
                                              orig |-> (c.class = "subst" /\ s = (IF c.kind = "R" THEN RStr ELSE IStr))]))
 \* a single substitution that changes the string is never accepted (consequence of Dist5, checked directly here)
 SubstRejected == (c.class # "none" /\ Mode = "subst") =>
